@@ -403,10 +403,14 @@ def expects_error(case):
 def check_cases(ctx, cases, chunk=25):
     ok_idx = [k for k, c in enumerate(cases) if not expects_error(c)]
     err_idx = [k for k, c in enumerate(cases) if expects_error(c)]
-    for idx, ch in ((ok_idx, chunk), (err_idx, 1)):       # expected errors: one job each
+    for idx, expect_err in ((ok_idx, False), (err_idx, True)):
         if not idx:
             continue
-        res = ev.evaluate_many(ctx, [expr_of(cases[k]) for k in idx], defs=DEFS, inspect=False, chunk=ch)
+        exprs = [expr_of(cases[k]) for k in idx]
+        if expect_err or chunk == 1:          # expected errors: one job each, all in one batch
+            res = ev.evaluate(ctx, exprs, defs=DEFS, inspect=False)
+        else:
+            res = ev.evaluate_many(ctx, exprs, defs=DEFS, inspect=False, chunk=chunk)
         for k, r in zip(idx, res):
             judge(ctx, cases[k], r)
 
@@ -551,15 +555,17 @@ def worker(ctx):
         check_cases(ctx, [{'fn': 'zip', 'vals': [], 'style': s} for s in ('module', 'global')])
     sampled = False
     while not ctx.expired():
-        v, w, u = gen_value(rng), gen_value(rng), gen_value(rng)
-        style = rng.choice(['module', 'module', 'module', 'global'])
-        cs = unary_cases(rng, v, style) + binary_cases(rng, v, w, style)
-        cs.append({'fn': 'zip', 'vals': [v, w, u], 'style': style})
-        cs.append({'fn': 'zip', 'vals': [w, u, v], 'style': style})
-        for c in binary_cases(rng, w, v, style):
-            if rng.random() < 0.3:
-                cs.append(c)
-        ctx.stat('random_rounds')
+        cs = []
+        for _ in range(3):
+            v, w, u = gen_value(rng), gen_value(rng), gen_value(rng)
+            style = rng.choice(['module', 'module', 'module', 'global'])
+            cs += unary_cases(rng, v, style) + binary_cases(rng, v, w, style)
+            cs.append({'fn': 'zip', 'vals': [v, w, u], 'style': style})
+            cs.append({'fn': 'zip', 'vals': [w, u, v], 'style': style})
+            for c in binary_cases(rng, w, v, style):
+                if rng.random() < 0.3:
+                    cs.append(c)
+            ctx.stat('random_rounds')
         check_cases(ctx, cs)
         if not sampled:
             c = cs[len(cs) // 2]
